@@ -59,7 +59,10 @@ impl<const T: JoinType> HashJoinExecutor<T> {
             let chunk = chunk?;
             let keys_chunk = Evaluator::new(&self.right_keys).eval_list(&chunk)?;
             for (right_row, keys) in chunk.rows().zip(keys_chunk.rows()) {
-                if let Some(left_rows) = hash_map.get_mut(&keys.values().collect::<JoinKeys>()) {
+                let keys = keys.values().collect::<JoinKeys>();
+                // NULL is not equal to NULL: a key with a NULL never matches
+                let has_null = keys.iter().any(|k| k.is_null());
+                if !has_null && let Some(left_rows) = hash_map.get_mut(&keys) {
                     left_rows.matched = true;
                     for left_row in &left_rows.rows {
                         let values = left_row.iter().cloned().chain(right_row.values());
